@@ -377,6 +377,10 @@ class FlowDomain(Domain):
             mine = frozenset(x for x in mine if not (len(x) > 2 and x[0] == 'F' and x[1] == 'CLEANPENDING' and x[2] in wrote)) \
                 | {('F', 'WROTE', c) for c in wrote}
         out = frozenset(x for x in tok_exit if x[0] not in ('F', 'OH')) | mine
+        if short(cb.path) == 'flush_meta':
+            # outcome of the last whole-metadata flush in this frame (C17.6)
+            out = out - {('F', 'FLUSHOK'), ('F', 'FLUSHERR')}
+            out = out | {('F', 'FLUSHERR') if exit_tag == 'err' else ('F', 'FLUSHOK')}
         if not any(x[0] == 'U' for x in tok_exit) and any(x[0] == 'U' for x in tok_before):
             # a barrier completed inside the callee
             out = out - {('F', 'UNREF_HDR')}
@@ -457,6 +461,11 @@ class FlowDomain(Domain):
                     return []
                 if fut.mode == 'write':
                     tok = tok | {('F', 'HOLDW', c, term['dst']['l'])}
+            elif fut.mode in ('write', 'read'):
+                sc = self.table_in_type(fut.cls, fr.ctx)
+                if sc in ('L2', 'RB'):
+                    # a guard of one cached slice: no other task can change the slice while it is held
+                    tok = tok | {('F', 'HOLDS', sc, term['dst']['l'])}
             return [(tok, None)]
         if fut.kind != 'trait_fn' or not fut.path.startswith('ops::Qcow2IoOps::'):
             return [(tok, None)]
@@ -688,6 +697,18 @@ class FlowDomain(Domain):
                             return True
         return False
 
+    def _table_writer_future(self, fn):
+        """awaiting a future of fn writes a table argument: directly, or in an async helper it awaits"""
+        if self._writes_table_arg(fn):
+            return True
+        if not hasattr(self, '_twf'):
+            self._twf = {}
+        if fn not in self._twf:
+            self._twf[fn] = False
+            self._twf[fn] = any(self._polls_table_writer(self.f.body(co), 1) for co in self.f.coroutines_of(fn)
+                                if self.f.body(co) is not None)
+        return self._twf[fn]
+
     def _writes_table_arg(self, fn):
         """fn builds a write buffer from Table::as_ptr of one of its parameters."""
         if not hasattr(self, '_wtc'):
@@ -734,19 +755,37 @@ class FlowDomain(Domain):
                         tok = tok - {('F', 'FALLOCFAIL')}
         # polling the zeroing futures completes them
         if ('F', 'ZMPENDING') in tok:
-            if any(self._wraps(n, 'fallocate') for n in names) and not any(self._writes_table_arg(n) for n in names):
-                return tok - {('F', 'ZMPENDING')}
-            if any(self._writes_table_arg(n) for n in names):
-                concurrent = any(self._wraps(n, 'fallocate') for n in names)
-                fut_tbl = [fu for fu in futs if fu.kind == 'async_fn' and self._writes_table_arg(fu.path)]
-                private = False
-                # grow_reftable joins the write of its private refblock with the
-                # zeroing of the *rest* of the slice range: disjoint ranges
-                for (sb, st_) in ip.creation_sites(fr.body, fut_tbl[0].path):
+            def _tbl_fut(fu):
+                # a future that writes a table it was handed (directly, or through an async helper)
+                if fu.kind != 'async_fn' or not self._table_writer_future(fu.path):
+                    return False
+                if self._writes_table_arg(fu.path):
+                    return True
+                for (_sb, st_) in ip.creation_sites(fr.body, fu.path):
                     sfr = ip.site_frame(fr, st_)
-                    at = self.argtags(ip, sfr, tok, tags if sfr is fr else {}, st_, None)
-                    if 'LOCALTBL' in at:
-                        private = True
+                    if any(a['k'] in ('copy', 'move') and self._table_of_operand(sfr, a) for a in st_['args'][1:]):
+                        return True
+                return False
+            fut_tbl = [fu for fu in futs if _tbl_fut(fu)]
+            if any(self._wraps(n, 'fallocate') for n in names) and not fut_tbl:
+                return tok - {('F', 'ZMPENDING')}
+            if fut_tbl:
+                concurrent = any(self._wraps(n, 'fallocate') for n in names)
+                # grow_reftable joins the write of its private refblock with the
+                # zeroing of the *rest* of the slice range: disjoint ranges.  Only the
+                # slice-sized block is exempt: a top table written in the same group
+                # lies behind it, inside the range being zeroed
+                private = bool(fut_tbl)
+                for fu_ in fut_tbl:
+                    one = False
+                    for (sb, st_) in ip.creation_sites(fr.body, fu_.path):
+                        sfr = ip.site_frame(fr, st_)
+                        at = self.argtags(ip, sfr, tok, tags if sfr is fr else {}, st_, None)
+                        cs = [self._table_of_operand(sfr, a) for a in st_['args'][1:] if a['k'] in ('copy', 'move')]
+                        cs = [c for c in cs if c]
+                        if 'LOCALTBL' in at and cs and cs[0] in SLICE:
+                            one = True
+                    private = private and one
                 ok = private
                 self._ob('C04.O6', fr, bi, ok, 'slice write polled while a zeroing request created earlier in %s '
                                                'has not completed' % short(fr.body.path))
@@ -755,6 +794,9 @@ class FlowDomain(Domain):
                                'in %s a cached slice write is polled before the zeroing of its new cluster has '
                                'completed: the zeroing can land after the write and destroy it; path %s' % (
                                    short(fr.body.path), fr.chain_str()))
+                if concurrent:
+                    # the zeroing requests are polled in the same group: complete when the await returns
+                    return tok - {('F', 'ZMPENDING')}
         return tok
 
     # ---------------------------------------------------------------- RAM events
@@ -769,6 +811,18 @@ class FlowDomain(Domain):
                 val = 'T' if val != 'int:0' else 'F'
             cls = self.entry_cls(fr, term) if role[0] == 'dirty' else None
             return [(self.store_event(ip, fr, tok, bi, role[0], val, cls), None)]
+        if callee.endswith('::shrink') and 'AsyncLruCache' in callee:
+            ok = ('F', 'FLUSHOK') in tok
+            me = short(fr.body.path)
+            self._ob('C17.6', fr, bi, ok, 'cache shrunk in %s' % me, site='shrink@%s' % me)
+            if not ok:
+                self._viol('C17.6', 'C17.6:%s' % self.known_owner(fr), fr, bi,
+                           '%s drops the clean unused slices of a cache %s: the slice flusher clears a dirty flag before the '
+                           'write, so after a failed flush a slice whose write failed is clean in RAM; dropping it loses the '
+                           'only copy of the change and a retried flush_meta() cannot write it; path %s' % (
+                               me, 'after flush_meta() returned an error' if ('F', 'FLUSHERR') in tok
+                               else 'without a completed flush_meta() before it', fr.chain_str()))
+            return None
         if callee.endswith('::commit_wmap') and 'AsyncLruCache' in callee:
             cls = self.entry_cls(fr, term)
             return [(tok | {('VICTIMS', cls)}, 'some()'), (tok, 'none')]
@@ -1042,6 +1096,18 @@ class FlowDomain(Domain):
                 return out | {('NEEDFLAG', me), ('RAM', ram)}
             if val == 'F':
                 out = set(tok)
+                if ('F', 'WROTE', cls) in tok:
+                    # cleared after the write: only safe while this task excludes every mutation of the slice (its write
+                    # guard); otherwise a change made between the write and the clearing is marked clean unwritten
+                    held = ('F', 'RELEASED', cls) not in tok
+                    self._ob('C02.7', fr, bi, held, 'dirty flag of a %s slice cleared after its write in %s' % (cls, me),
+                             site='lateclear@%s:%s' % (me, cls))
+                    if not held:
+                        self._viol('C02.7', 'C02.7:%s:%s' % (self.known_owner(fr), cls), fr, bi,
+                                   '%s clears the dirty flag of a cached %s slice after the slice was written and after the '
+                                   'guard that kept the slice unchanged was released: a change made to the slice between the '
+                                   'release and the clearing (by a task that ran meanwhile) is marked clean and never flushed; '
+                                   'path %s' % (me, cls, fr.chain_str()))
                 if ('F', 'WROTE', cls) not in tok:
                     # cleared before (or without) the write: must be written on
                     # every path, and set again if the write fails
@@ -1091,6 +1157,15 @@ class FlowDomain(Domain):
                 self._viol('C17.2', 'C17.2:%s:top' % me, fr, bi,
                            '%s popped a dirty block index of the %s table and returns an error without queueing it '
                            'again: a retried flush_meta() never writes that block; path %s' % (me, x[2], fr.chain_str()))
+            elif x[1] == 'POPPED' and rt == 'ok':
+                wrote = ('F', 'WROTE', x[2]) in tok
+                self._ob('C02.8', fr, bi, wrote, '%s took a dirty block index of the %s table off the queue and returns Ok' % (me, x[2]),
+                         site='popped@%s:%s' % (me, x[2]))
+                if not wrote:
+                    self._viol('C02.8', 'C02.8:%s:%s' % (self.known_owner(fr), x[2]), fr, bi,
+                               '%s takes a dirty block index of the %s table off the queue and returns Ok on a path on which '
+                               'the block is not written: the flush reports success and the block (the pointers to new '
+                               'tables) never reaches the file; path %s' % (me, x[2], fr.chain_str()))
             elif x[1] == 'FALLOCFAIL' and rt == 'ok':
                 self._viol('C17.3', 'C17.3:%s:fallback' % me, fr, bi,
                            '%s returns Ok after a failed zero/punch request without writing zeros over the range; '
@@ -1105,6 +1180,19 @@ class FlowDomain(Domain):
     def on_leaf_call(self, ip, fr, tok, tags, bi, term, fn):
         if ('HDRFAIL',) in tok and term.get('trait') in ('std::ops::FnOnce', 'std::ops::FnMut', 'std::ops::Fn'):
             tok = tok - {('HDRFAIL',)}
+        if fn is not None and fn.endswith('::push') and 'Vec' in fn and len(term['args']) > 1 and self._holdw(tok) \
+                and term['args'][1]['k'] == 'move' and term['args'][0]['k'] in ('move', 'copy'):
+            # a slice guard pushed into a vector stays held as long as the vector lives
+            g = term['args'][1]['pl']['l']
+            vec = None
+            for d in self.p.defs(fr.body).get(term['args'][0]['pl']['l'], []):
+                if d[0] == 'st':
+                    rv = fr.body.blocks[d[1]]['st'][d[2]]['rv']
+                    if rv['k'] == 'ref' and not rv['pl']['p']:
+                        vec = rv['pl']['l']
+            if vec is not None:
+                tok = frozenset(('F', 'HOLDS', x[2], vec) if (len(x) > 3 and x[0] == 'F' and x[1] == 'HOLDS' and x[3] == g) else x
+                                for x in tok)
         if fn is not None and fn.endswith('Atomic::<bool>::store') and len(term['args']) > 1:
             fld = self._stored_field(fr.body, term)
             if fld in ('need_flush', 'dirty'):
@@ -1135,7 +1223,7 @@ class FlowDomain(Domain):
                                short(fr.body.path), fr.chain_str()))
         if fn in ('std::mem::drop', 'core::mem::drop') and term['args'] and term['args'][0]['k'] == 'move':
             l = term['args'][0]['pl']['l']
-            tok = frozenset(x for x in tok if not (len(x) > 3 and x[0] == 'F' and x[1] == 'HOLDW' and x[3] == l))
+            tok = self._release(tok, lambda x: x[3] == l)
         return [(tok, None)]
 
     def _is_newmap(self, fr, a):
@@ -1150,10 +1238,22 @@ class FlowDomain(Domain):
             return self.f.type_contains(args[1], lambda y: y['k'] == 'adt' and y.get('p') == 'futures_locks::RwLock')
         return self.f.type_contains(tid, hit)
 
+    def _release(self, tok, pred):
+        """remove the guard tokens selected by `pred`; a slice guard released after the slice was written is remembered"""
+        out = set()
+        rel = set()
+        for x in tok:
+            if len(x) > 3 and x[0] == 'F' and x[1] in ('HOLDW', 'HOLDS') and pred(x):
+                if x[1] == 'HOLDS' and ('F', 'WROTE', x[2]) in tok:
+                    rel.add(('F', 'RELEASED', x[2]))
+                continue
+            out.add(x)
+        return frozenset(out | rel)
+
     def _holdw(self, tok):
         r = self._hw.get(tok)
         if r is None:
-            r = any(len(x) > 3 and x[0] == 'F' and x[1] == 'HOLDW' for x in tok)
+            r = any(len(x) > 3 and x[0] == 'F' and x[1] in ('HOLDW', 'HOLDS') for x in tok)
             self._hw[tok] = r
         return r
 
@@ -1166,20 +1266,20 @@ class FlowDomain(Domain):
         for o in rv.get('ops', []):
             if o['k'] == 'move':
                 for x in tok:
-                    if len(x) > 3 and x[0] == 'F' and x[1] == 'HOLDW' and x[3] == o['pl']['l']:
+                    if len(x) > 3 and x[0] == 'F' and x[1] in ('HOLDW', 'HOLDS') and x[3] == o['pl']['l']:
                         out.discard(x)
-                        out.add(('F', 'HOLDW', x[2], s['pl']['l']))
+                        out.add(('F', x[1], x[2], s['pl']['l']))
         return frozenset(out)
 
     def on_drop(self, ip, fr, tok, tags, bi, place):
         if place['p'] or not self._holdw(tok):
             return tok
-        return frozenset(x for x in tok if not (len(x) > 3 and x[0] == 'F' and x[1] == 'HOLDW' and x[3] == place['l']))
+        return self._release(tok, lambda x: x[3] == place['l'])
 
     def on_dead(self, ip, fr, tok, tags, bi, local):
         if not self._holdw(tok):
             return tok
-        return frozenset(x for x in tok if not (len(x) > 3 and x[0] == 'F' and x[1] == 'HOLDW' and x[3] == local))
+        return self._release(tok, lambda x: x[3] == local)
 
     def on_enter(self, ip, fr, tok, cfr, bi, term):
         if ('HDRFAIL',) in tok and cfr.body.kind == 'Closure' and not cfr.body.is_coroutine:
